@@ -165,6 +165,8 @@ class PathCtl:
         self.prefix = []
         self.trace = []     # (n_alternatives_feasible list, chosen index)
         self.pc = []
+        self.pinned = {}
+        self.spread_for = {}
 
     deadline = None          # wall-clock limit of the whole exploration (set by the caller); past it the exploration is inconclusive
 
@@ -216,15 +218,31 @@ class PathCtl:
 
     allow_concretise = False     # set by the caller (C02-style cells): see concretise
     concretised = 0
+    pinned = {}
+    spread_for = {}
 
-    def concretise(self, term):
-        """The code under analysis needs a concrete integer (a length to read) where it holds a symbolic one - on a canonical
-        encoding that only happens when a decoder has lost its position.  Pick a value consistent with the path and pin it:
-        every counterexample found below is genuine, but the path no longer covers all values, so the caller must not count
-        the cell as discharged (PathCtl.concretised > 0).  The value is recorded in the decision trace so that the forks by
-        re-execution see the same one."""
+    def concretise(self, term, prefer=()):
+        """The code under analysis needs a concrete integer (a length to read, a number printed into text) where it holds a
+        symbolic one.  Pick a value consistent with the path and pin it: every counterexample found below is genuine, but the
+        path no longer covers all values, so the caller must not count the cell as discharged (PathCtl.concretised > 0).
+        The value is recorded in the decision trace so that the forks by re-execution see the same one.  A term registered in
+        `spread_for` (a literal of the input) forks over its feasible boundary candidates instead of taking one witness."""
+        tid = term.get_id()
+        if tid in self.pinned:
+            return self.pinned[tid]
         if not self.allow_concretise:
             raise Unsupported('symbolic integer where a concrete one is needed')
+        val = None
+        if tid in self.spread_for:
+            pre, cands = self.spread_for[tid]
+            cands = list(dict.fromkeys(list(pre) + list(cands)))
+            conds = [term == z3.BitVecVal(c, term.size()) for c in cands]
+            feas_any = self._feasible(z3.Or(conds))
+            if feas_any:
+                val = cands[self.choose(conds)]
+                self.pinned[tid] = val
+                self.concretised += 1
+                return val
         k = len(self.trace)
         if k < len(self.prefix):
             val = self.prefix[k]
@@ -234,8 +252,9 @@ class PathCtl:
             m = self.solver.model()
             # prefer a small value: a huge length only produces a short-read error
             val = None
-            for cand in (0, 1, 2):
-                self.solver.push(); self.solver.add(term == cand)
+            for cand in tuple(prefer) + (0, 1, 2):
+                self.solver.push()
+                self.solver.add(term == cand)
                 ok = self.solver.check() == z3.sat
                 self.solver.pop()
                 if ok:
@@ -248,6 +267,7 @@ class PathCtl:
         self.solver.add(c)
         self.pc.append(c)
         self.concretised += 1
+        self.pinned[tid] = val
         return val
 
     def branch(self, cond):
@@ -277,6 +297,7 @@ class PathCtl:
             self.prefix = stack.pop()
             self.trace = []
             self.pc = []
+            self.pinned = {}
             self.solver.push()
             try:
                 try:
